@@ -13,3 +13,5 @@ import NpsVerif.Props.C08
 import NpsVerif.Props.C09
 import NpsVerif.Props.C11
 import NpsVerif.Props.C12
+import NpsVerif.Props.C06
+import NpsVerif.Props.C10
